@@ -85,7 +85,7 @@ def install(native=False):
 
     # 2. warm networkx's lazily compiled argmap entry points used by modelx
     used = set()
-    core = "/repo/modelx/core"
+    core = os.path.join(os.environ.get("VERIF_REPO", "/repo"), "modelx", "core")
     for f in os.listdir(core):
         if f.endswith(".py"):
             for m in re.finditer(r"\bnx\.([A-Za-z_]+)", open(os.path.join(core, f)).read()):
